@@ -506,7 +506,7 @@ def e_sync(c):
 
 
 PARTS = [
-    Part("driver", eval_history, kind="machine", machine=machine, quick=60, thorough=1800, shards=16, quick_shards=6, steps_quick=20, steps_thorough=240, rule="see RULE"),
+    Part("driver", eval_history, kind="machine", machine=machine, quick=60, thorough=1800, shards=16, quick_shards=6, steps_quick=20, steps_thorough=40, rule="see RULE"),
     Part("typed", e_typed, s_typed, quick=60, thorough=1200, shards=1, rule="wrongly typed arguments raise only the documented ValueError"),
     Part("sync", e_sync, s_sync(), quick=250, thorough=12000, shards=8, quick_shards=2, rule="non-trivial: delay >= 1 and noise"),
 ]
